@@ -20,6 +20,7 @@ class Scenario:
         # the copy ({c} = its context slot, {p} = its path), and optionally the bytes the file holds when it is opened
         # (self.sources[i] is what it holds when the copy runs - the facts are computed from that)
         self.src_prep = {}; self.src_initial = {}; self.aux = {}
+        self.stocktake = False      # a validity scan between the requests, on the same context (moves the target's file offset)
 
     def write_files(self, keep_target=False):
         if not keep_target:
@@ -56,6 +57,8 @@ class Scenario:
         for r in range(nr):
             L.append("fetch 0 0 %s %d %d %s %s" % (self.bpath, self.limit, self.frag, self.fetch_opts, self.round_opts.get(r, "")))
             L.append(self.snap("round%d" % r))
+            if self.stocktake:
+                L.append("find_valid 0")
             L.append("reset_failed 0")
         if self.final:
             L += ["truncate_to_length 0 0", "validate_data 0", self.snap("final")]
@@ -137,7 +140,7 @@ def enrich(sc, ce):
     cur = None          # current target bytes (last snapshot)
     valid = [0] * n
     copy_i = 0; round_i = 0
-    started = False
+    started = False; scanned = False
     opened = {}
     for e in ce:
         op = e["op"]
@@ -151,7 +154,7 @@ def enrich(sc, ce):
             out.append({"op": "start", "n": n, "disk": d}); started = True
         elif op == "find_valid":
             d, z = disk_facts(cur, B, h)
-            out.append({"op": "scan", "vec": e["valid"], "disk": d, "sized": sized, "ret": e["ret"]}); valid = e["valid"]
+            out.append({"op": "rescan" if scanned else "scan", "vec": e["valid"], "disk": d, "sized": sized, "ret": e["ret"]}); valid = e["valid"]; scanned = True
         elif op == "copy_chunks" and e.get("c", 0) == 0:
             after = rd("copy%d" % copy_i)
             src = sc.sources[copy_i]; sp = sc.spaths[copy_i]
